@@ -4,6 +4,8 @@ import (
 	"fmt"
 	"go/types"
 
+	"golang.org/x/tools/go/ssa"
+
 	"verif/engine/smt"
 )
 
@@ -371,9 +373,51 @@ func (e *Engine) Load(st *State, p PtrV, typ types.Type, where string) Value {
 	return res
 }
 
+// hookTick: sequential stall hook. Before the access that follows exactly `cut` earlier accesses
+// of the hooked region the registered function (the adversary) runs to completion.
+func (e *Engine) hookTick(st *State, o *Obj, where string, atomic bool) {
+	if e.hookObj != o || e.hookBusy || st.Th != nil || e.hookCnt == nil {
+		return
+	}
+	c := e.C
+	cv, ok := st.Heap[e.hookCnt].(Value)
+	if !ok {
+		return
+	}
+	cnt := cv.(IntV).T
+	zero := c.BV(0, 64)
+	fire := c.Eq(cnt, zero)
+	dec := c.Ite(c.Sgt(cnt, zero), c.Sub(cnt, c.BV(1, 64)), cnt)
+	if fire.IsFalse() {
+		st.Heap[e.hookCnt] = Value(IntV{dec})
+		e.hookOcc[where]++
+		return
+	}
+	e.hookBusy = true
+	defer func() { e.hookBusy = false }()
+	e.hookOcc[where]++
+	e.HookFires = append(e.HookFires, HookFire{Atomic: atomic, Where: where, Occ: e.hookOcc[where], G: c.And(st.G, fire)})
+	minus := c.BV(^uint64(0), 64)
+	if fire.IsTrue() {
+		st.Heap[e.hookCnt] = Value(IntV{minus})
+		e.doCall(nil, st, &ssa.CallCommon{}, e.hookFn, nil, nil, "stall-hook")
+		return
+	}
+	run := &State{G: c.And(st.G, fire), Heap: cloneHeap(st.Heap), Th: st.Th}
+	run.Heap[e.hookCnt] = Value(IntV{minus})
+	e.doCall(nil, run, &ssa.CallCommon{}, e.hookFn, nil, nil, "stall-hook")
+	rest := &State{G: c.And(st.G, c.Not(fire)), Heap: st.Heap, Th: st.Th}
+	rest.Heap[e.hookCnt] = Value(IntV{dec})
+	m := e.mergeStates(run, rest)
+	st.G, st.Heap = m.G, m.Heap
+}
+
 func (e *Engine) loadAlt(st *State, alt PtrAlt, typ types.Type, where string) Value {
 	c := e.C
 	o := alt.Obj
+	if !e.inAtomicOp {
+		e.hookTick(st, o, where, false)
+	}
 	if o.Shared != nil && st.Th != nil {
 		return e.sharedLoad(st, alt, typ, where)
 	}
@@ -470,6 +514,9 @@ func (e *Engine) Store(st *State, p PtrV, v Value, typ types.Type, where string)
 func (e *Engine) storeAlt(st *State, alt PtrAlt, v Value, typ types.Type, where string) {
 	c := e.C
 	o := alt.Obj
+	if !e.inAtomicOp {
+		e.hookTick(st, o, where, false)
+	}
 	if o.Shared != nil && st.Th != nil {
 		e.sharedStore(st, alt, v, typ, where)
 		return
